@@ -222,7 +222,7 @@ def check(fx, rep, tier):
         import imports as _imp
         rep.rule('R11.5', 'while such an escape exists: the read loop of C01 reads the transport only when no frame is buffered and returns only when the received bytes end with a '
                           'terminator (R01.2), with the sentinel / cursor-reset pairing that tells "no more buffered frames" (R01.3, R01.6)')
-        _imp.rules_of(fx, rep, 'C01', {'R01.2', 'R01.3', 'R01.6'}, 'R11.5', 'a receive that touches the transport while frames of the previous read are still buffered writes (and may grow, '
+        _imp.rules_of(fx, rep, 'C01', {'R01.2', 'R01.3', 'R01.6', 'R01.9'}, 'R11.5', 'a receive that touches the transport while frames of the previous read are still buffered writes (and may grow, '
                       'i.e. reallocate) the buffer that items already handed out still borrow from')
         # R11.6: the laundered reborrow gets whatever lifetime the closure type `F: FnMut(&'x mut ReadConnection) -> Fut` asks for; today `'x` is
         # the lifetime parameter of the stream type itself, i.e. the borrow of the connection the stream holds.  An impl that introduces a
